@@ -608,6 +608,9 @@ def run(ctx):
     # round-robin over the files so that the (heavier) directed cases are spread over all coqc jobs
     nfiles = max(1, min(16, -(-len(body) // 40))) if len(body) <= 16 * per_file else -(-len(body) // per_file)
     files = [(body[i::nfiles], recs[i::nfiles]) for i in range(nfiles) if body[i::nfiles]]
+    from harness import statecarry
+
+    statecarry.run_for(ctx, "C08")      # sequences of calls (state carried between calls)
     large_stream(ctx)
     mism = []
     if gen_ok:
@@ -710,6 +713,10 @@ def replay(ctx, data):
         return 1 if ctx.violations else 0
     if data.get("op") == "build-family":
         return S.replay_family(data)
+    if data.get("op") == "state-carry":
+        from harness import statecarry
+
+        return statecarry.replay(data)
     cells = S.cells_from_data(data["cells"])
     args = args_from_data(data["args"])
     t, (status, res) = run_aggregate(cells, args)
